@@ -458,12 +458,16 @@ def dispatch_certificate(parsed):
             if pat == "_" or int(pat) == v:
                 return orig
         return None
-    # inlined = exactly the single-predecessor states
-    want_inl = [i for i, st in enumerate(dfa) if len(st["preds"]) == 1]
+    # inlined = states with exactly one predecessor, reached from it through exactly one kind of arm
+    def n_arms_to(pst, s):
+        t = "t%d" % s
+        return int(any(v == t for v in pst["c"].values())) + int(any(x[2] == t for x in pst["r"])) + int(pst["a"] == t)
+    want_inl = [i for i, st in enumerate(dfa)
+                if len(st["preds"]) == 1 and st["preds"][0] < len(dfa) and n_arms_to(dfa[st["preds"][0]], i) == 1]
     if sorted(inl) != want_inl:
-        probs.append("inlined states %r, states with one predecessor %r" % (inl, want_inl))
+        probs.append("inlined states %r, expected (one predecessor, one arm) %r" % (inl, want_inl))
     for s, st in enumerate(dfa):
-        if len(st["preds"]) == 1 and not st["init"]:
+        if s in inl:
             continue
         got = arm_lookup(renum(s))
         if got != s:
